@@ -185,3 +185,6 @@
         assert!(a.last_unsol_frag.is_none());
         kani::cover!(integrity_classes);
     }
+
+    /// accessor for fragments of other files (no logic): tag of the automatic time-sync task (0 idle, 1 pending, 2 failed)
+    pub(crate) fn time_sync_tag(a: &Association) -> u8 { at::tag(&a.auto_tasks.time_sync) }
